@@ -32,7 +32,13 @@ var zzKindName = []string{"null", "bool", "decimal", "int", "long", "float", "do
 func ZZ_C02_RoundTrip() {
 	depth, width := 1, 2
 	if zzvf.Thorough() {
-		depth, width = 2, 2
+		// nesting depth 2 with one entry per container, or depth 1 with three entries
+		// (depth 2 x width 2: 2.7 million paths in 40 min without finishing — outside the claim)
+		if zzvf.Choose(2) == 0 {
+			depth, width = 2, 1
+		} else {
+			depth, width = 1, 3
+		}
 	}
 	k := zzvf.Choose(zzNAll)
 	v, ref := zzGenKind(k, depth, width)
